@@ -333,3 +333,157 @@ def install_core(ex):
     A(r" as (std::ops::)?FromResidual<.*>>::from_residual$", _from_residual, "FromResidual::from_residual (error value opaque)")
     A(r"^(std::fmt::|core::fmt::)?Arguments::<'_>::(from_str|new_const|new_v1|new)", _opaque, "fmt::Arguments constructors (opaque)")
     A(r"^core::array::equality::<impl PartialEq.*>::(eq|ne)$|^<\[u8; \d+\] as PartialEq>::(eq|ne)$", _array_eq, "[T; N] == [T; N]")
+
+
+# ----------------------------------------------------------------- BTreeMap<PathBuf, V> over a finite ordered universe
+# A map is VStruct("BTreeMap", [VList(entries)]) with entry j = VStruct("entry", [VBool present, value]);
+# key j is the j-th path of the universe in Path order.  PathBuf values are VInt(id, "usize").
+
+def mk_map(entries):
+    return VStruct("BTreeMap", [VList(entries, I(len(entries)), "entry")])
+
+
+def _map_of(ex, st, v):
+    while isinstance(v, VRef):
+        v = ex.deref(st, v)
+    if not (isinstance(v, VStruct) and v.name == "BTreeMap"):
+        raise Unsupported("expected a BTreeMap model, got %r" % (v,))
+    return v.f[0].items
+
+
+def _key_id(ex, st, v):
+    while isinstance(v, VRef):
+        v = ex.deref(st, v)
+    if not isinstance(v, VInt):
+        raise Unsupported("expected a path id, got %r" % (v,))
+    return v.t
+
+
+def _next_present(entries, idx):
+    U = len(entries)
+    nid = I(U)
+    for j in reversed(range(U)):
+        nid = z3.If(z3.And(idx <= j, entries[j].f[0].t), I(j), nid)
+    return simp(nid)
+
+
+def _select_val(entries, kid):
+    out = entries[-1].f[1]
+    for j in range(len(entries) - 2, -1, -1):
+        out = merge(simp(kid == j), entries[j].f[1], out)
+    return out
+
+
+def _present_at(entries, kid):
+    return simp(z3.Or(*[z3.And(kid == j, e.f[0].t) for j, e in enumerate(entries)]))
+
+
+def _map_iter(ex, st, args, dest_ty, func, where):
+    m = args[0]
+    while isinstance(m, VRef):
+        m = ex.deref(st, m)
+    return VStruct("MapIter", [m, VInt(I(0), "usize")])
+
+
+def _map_iter_next(ex, st, args, dest_ty, func, where):
+    ref = args[0]
+    it = ex.deref(st, ref)
+    entries = it.f[0].f[0].items
+    U = len(entries)
+    nid = _next_present(entries, it.f[1].t)
+    has = simp(nid < U)
+    key = VRef("val", val=VInt(nid, "usize"))
+    val = VRef("val", val=_select_val(entries, nid))
+    ex.store_ref(st, ref, VStruct("MapIter", [it.f[0], VInt(simp(z3.If(has, nid + 1, I(U))), "usize")]))
+    if "Keys<" in func:
+        return opt_sym(has, key)
+    return opt_sym(has, VStruct("(tuple)", [key, val]))
+
+
+def _map_get(ex, st, args, dest_ty, func, where):
+    entries = _map_of(ex, st, args[0])
+    kid = _key_id(ex, st, args[1])
+    return opt_sym(_present_at(entries, kid), VRef("val", val=_select_val(entries, kid)))
+
+
+def _map_contains(ex, st, args, dest_ty, func, where):
+    entries = _map_of(ex, st, args[0])
+    kid = _key_id(ex, st, args[1])
+    return VBool(_present_at(entries, kid))
+
+
+def _path_deref(ex, st, args, dest_ty, func, where):
+    v = args[0]
+    while isinstance(v, VRef):
+        v = ex.deref(st, v)
+    return VRef("val", val=v)
+
+
+def _path_clone(ex, st, args, dest_ty, func, where):
+    v = args[0]
+    while isinstance(v, VRef):
+        v = ex.deref(st, v)
+    return v
+
+
+def _vec_default(ex, st, args, dest_ty, func, where):
+    return VSeq(z3.K(z3.IntSort(), I(0)), I(0), I(0), "usize")
+
+
+def _usize_default(ex, st, args, dest_ty, func, where):
+    return VInt(I(0), "usize")
+
+
+def _vec_push_scalar(ex, st, args, dest_ty, func, where):
+    ref, v = args
+    s = ex.deref(st, ref)
+    if not isinstance(s, VSeq) or not isinstance(v, VInt):
+        raise Unsupported("Vec::push on %r with %r" % (s, v))
+    ex.store_ref(st, ref, VSeq(z3.Store(s.arr, simp(s.off + s.len), v.t), s.off, simp(s.len + 1), s.elem))
+    return UNIT
+
+
+def _deref_mut_same(ex, st, args, dest_ty, func, where):
+    return args[0]
+
+
+def _sort_ids(ex, st, args, dest_ty, func, where):
+    """<[T]>::sort on a sequence of ids: the result is the sorted permutation of the input
+    (fresh array + axioms; capacity = ex.sort_cap, with an obligation that the length fits)."""
+    ref = args[0]
+    s = ex.deref(st, ref)
+    if not isinstance(s, VSeq):
+        raise Unsupported("sort on %r" % (s,))
+    cap, U = ex.sort_cap, ex.universe
+    ex.oblig("model-bound", where, "sort: sequence longer than the model capacity %d" % cap, z3.And(st.guard, s.len > cap))
+    out = z3.Array("sorted!%d" % next(ex.fresh), z3.IntSort(), z3.IntSort())
+    ax = []
+    for i in range(cap):
+        ax.append(z3.Implies(i < s.len, z3.And(z3.Select(out, i) >= 0, z3.Select(out, i) < U)))
+        if i + 1 < cap:
+            ax.append(z3.Implies(i + 1 < s.len, z3.Select(out, i) <= z3.Select(out, i + 1)))
+    for u in range(U):
+        cin = sum([z3.If(z3.And(i < s.len, s.at(I(i)) == u), 1, 0) for i in range(cap)])
+        cout = sum([z3.If(z3.And(i < s.len, z3.Select(out, i) == u), 1, 0) for i in range(cap)])
+        ax.append(cin == cout)
+    ex.assumes.append(z3.Implies(st.guard, z3.And(*ax)))
+    ex.store_ref(st, ref, VSeq(out, I(0), s.len, s.elem))
+    return UNIT
+
+
+def install_collections(ex, universe, sort_cap):
+    ex.universe, ex.sort_cap = universe, sort_cap
+    # these must precede the generic into_iter identity model
+    ex.models.insert(0, (re.compile(r"^<&BTreeMap<.*> as IntoIterator>::into_iter$"), _map_iter, "<&BTreeMap as IntoIterator>::into_iter (ordered universe)"))
+    A = ex.add_model
+    A(r"^BTreeMap::<.*>::(iter|keys)$", _map_iter, "BTreeMap::{iter,keys}")
+    A(r"^<std::collections::btree_map::(Iter|Keys)<'_, .*> as Iterator>::next$", _map_iter_next, "btree_map::{Iter,Keys}::next (ascending key order)")
+    A(r"^BTreeMap::<.*>::get::<", _map_get, "BTreeMap::get")
+    A(r"^BTreeMap::<.*>::contains_key::<", _map_contains, "BTreeMap::contains_key")
+    A(r"^<PathBuf as (std::ops::)?Deref>::deref$", _path_deref, "<PathBuf as Deref>::deref (paths are ids)")
+    A(r"^<PathBuf as Clone>::clone$", _path_clone, "<PathBuf as Clone>::clone")
+    A(r"^<Vec<PathBuf> as Default>::default$|^<Vec<\(PathBuf, .*\)> as Default>::default$|^Vec::<\(?PathBuf.*>::new$", _vec_default, "Vec<PathBuf>::default/new")
+    A(r"^<usize as Default>::default$", _usize_default, "usize::default")
+    A(r"^Vec::<PathBuf>::push$", _vec_push_scalar, "Vec<PathBuf>::push")
+    A(r"^<Vec<PathBuf> as (std::ops::)?DerefMut>::deref_mut$", _deref_mut_same, "<Vec<T> as DerefMut>::deref_mut")
+    A(r"^std::slice::<impl \[PathBuf\]>::sort$|^core::slice::<impl \[PathBuf\]>::sort$", _sort_ids, "<[PathBuf]>::sort (sorted permutation axioms)")
